@@ -65,9 +65,26 @@ def gen(seed: int, tier: str, idx=None):
                 o["defaults"] = True
             g.emit(o)
         elif kind == "rename_table":
-            g.emit({"op": "rename_table", "d": 0, "s": s, "t": rng.randrange(8), "name": name()})
+            tabs = m.sheets[s].tables
+            t = rng.randrange(len(tabs))
+            if len(tabs) >= 2 and rng.random() < 0.4:
+                # name swap: the old name comes back on a sibling, then both are looked up
+                old_name, t2 = tabs[t].name, (t + 1) % len(tabs)
+                g.emit({"op": "lookup", "d": 0, "s": s})
+                g.emit({"op": "rename_table", "d": 0, "s": s, "t": t, "name": "tmp " + str(rng.randrange(4))})
+                g.emit({"op": "rename_table", "d": 0, "s": s, "t": t2, "name": old_name})
+                g.emit({"op": "lookup", "d": 0, "s": s})
+            else:
+                g.emit({"op": "rename_table", "d": 0, "s": s, "t": t, "name": name()})
         elif kind == "rename_sheet":
-            g.emit({"op": "rename_sheet", "d": 0, "s": s, "name": name()})
+            if len(m.sheets) >= 2 and rng.random() < 0.4:
+                old_name, s2 = m.sheets[s].name, (s + 1) % len(m.sheets)
+                g.emit({"op": "lookup", "d": 0, "s": s})
+                g.emit({"op": "rename_sheet", "d": 0, "s": s, "name": "tmp " + str(rng.randrange(4))})
+                g.emit({"op": "rename_sheet", "d": 0, "s": s2, "name": old_name})
+                g.emit({"op": "lookup", "d": 0, "s": s})
+            else:
+                g.emit({"op": "rename_sheet", "d": 0, "s": s, "name": name()})
         elif kind == "lookup":
             g.emit({"op": "lookup", "d": 0, "s": s, "extra": rng.choice([1, 1, 3])})
         elif kind == "save":
